@@ -223,6 +223,17 @@ class Operation(ABC):
                 if backed_grad.dtype != var.dtype:
                     backed_grad = backed_grad.astype(var.dtype, copy=False)
 
+                if not (
+                    backed_grad.flags.c_contiguous and var.data.flags.c_contiguous
+                ):
+                    # Keep the gradient's memory layout in step with that of the
+                    # tensor's data, so that the view-ops that get replayed on the
+                    # gradient - for the views of `var` - produce views of the
+                    # gradient, as they did for the data, and not copies
+                    laid_out = np.empty_like(var.data, dtype=backed_grad.dtype)
+                    laid_out[...] = backed_grad
+                    backed_grad = laid_out
+
                 var._grad = backed_grad
             else:
                 var._grad += backed_grad
